@@ -61,7 +61,9 @@ def main():
     body = "Quick tier (the evidence files committed with this text):\n\n" + quick
     th = [d for d in sys.argv[1:] if os.path.isdir(d)]
     if th:
-        body += "\n\nThorough tier (last complete runs, made on snapshots with `vp run --with-repo`, under load from other runs):\n\n" + table(th)
+        rows = [l for l in table(th).split("\n") if l.startswith("| id") or l.startswith("|---") or "| thorough |" in l]
+        rows = rows[:2] + sorted(set(rows[2:]))
+        body += "\n\nThorough tier (last complete runs, made on snapshots with `vp run --with-repo`, under load from other runs):\n\n" + "\n".join(rows)
     s = replace(s, BEGIN_82, END_82, body)
     s = replace(s, BEGIN_85, END_85, automutants())
     open(p, "w").write(s)
